@@ -15,14 +15,19 @@ DEPTH = {"quick": 3, "thorough": 4}
 DEADLINE = {"quick": 600, "thorough": 2700}
 # rounds from this depth on expand only the states whose shortest path consists of core-alphabet commands
 CORE_FROM = {"quick": 99, "thorough": 4}
+NROOTS = 5  # c15Roots(): one worker per root in round 0
 
 RULE = {
     "C15": "breadth-first exploration of canonical catalogue states (complete sorted dump of what Data.MarshalBinary persists, "
-           "deletion stamps as set/unset, Term/Index excluded) from 4 roots; every transition = replay of seed + shortest path + 1 "
+           "deletion stamps as set/unset, Term/Index excluded) from 5 roots; every transition = replay of seed + shortest path + 1 "
            "command of the menu on fresh stores through (*storeFSM).Apply, compared against (i) a second instance fed the same log "
            "and (ii) one instance per cut position restored from Snapshot()->Persist()->Restore() that applies the rest; "
+           "map-order adversary: every range over a map (ordered key type) in lib/util/lifted/influx/meta and app/ts-meta/meta is "
+           "rewritten (overlay, go/types) to take its order from the harness - the reference instance visits keys ascending, the "
+           "second replica and every restored node descending, a third replica in the runtime's order; "
            "distinct_nontrivial = distinct (pre-state, command) pairs whose command changes the catalogue",
-    "C16": "same state graph as C15; every transition = replay of seed + shortest path + 1 command on a fresh store; the "
+    "C16": "same state graph as C15; every transition = replay of seed + shortest path + 1 command on a fresh store, executed twice: "
+           "all rewritten map ranges ascending (defines the state graph) and descending; the "
            "well-formedness invariants are evaluated on the live meta.Data before and after the command (violations the command "
            "introduces are reported), failed commands must leave the dump unchanged, ids newly handed out must never have been "
            "seen earlier on the path; distinct_nontrivial = distinct (pre-state, command) pairs whose command changes the catalogue",
@@ -32,11 +37,20 @@ ASSUME = {
             "their effect on later results/dumps within the depth bound",
             "state merging: two logs that lead to the same canonical dump are continued only once (from the shortest log)",
             "commands that call other services use the package's MockNetStorage; InsertFiles runs without SQLite",
-            "hash-map iteration order is whatever the Go runtime picks in this run (no adversarial map order)"],
+            "map iteration order: only the two extreme orders (ascending / descending keys) plus whatever the runtime picks for the third "
+            "replica are exercised, not all n! orders - a dependence that shows only for a middle element of a map with >= 3 entries "
+            "being visited first is found by luck as before; only ranges in the two rewritten packages are controlled (131 sites, maps "
+            "with non-ordered key types would be left alone: none exist there); order dependence through other means "
+            "(reflect.MapKeys, maps.Keys, protobuf map fields encoded by the library) is not controlled",
+            "the worker is single threaded; the map order mode is process global and switched around every Apply/Snapshot/Restore of "
+            "the respective instance; the only goroutine the FSM starts (ApplyUpdateReplication's leadership transfer) ranges over no map"],
     "C16": ["state merging on the canonical dump (see C15); the ghost set of ids is carried along the shortest path only, complemented by "
             "the per-state checks id <= counter and counter monotone",
             "shards of deleted groups / shards marked deleted are not required to have an index or owner partitions",
-            "'duration-aligned' is checked as: range non-empty, pairwise disjoint, sorted (older groups keep the alignment of the duration in force when they were created)"],
+            "'duration-aligned' is checked as: range non-empty, pairwise disjoint, sorted (older groups keep the alignment of the duration in force when they were created)",
+            "map iteration order: each transition runs with ascending and with descending keys in every rewritten range (see C15); "
+            "the state graph is the one of the ascending pass; a transition whose descending pass ends in another state is counted "
+            "(transitions_whose_outcome_depends_on_map_order) and left to C15"],
 }
 
 
@@ -166,7 +180,7 @@ def explore(cid, tier, replay):
             last = rnd == depth
             env = {"GOGC": "400", "GOMAXPROCS": "2", "VERIF_ROUND": str(rnd), "VERIF_FRONTIER": fpath, "VERIF_VISITED": vpath, "VERIF_LAST": "1" if last else "0"}
             env.update(menv)
-            n = 4 if rnd == 0 else nw
+            n = NROOTS if rnd == 0 else nw
             tr = time.time()
             reps = checklib.run_workers(cid, binp, test, tier, n, left, rdir, extra_env=env)
             reports += reps
@@ -192,7 +206,7 @@ def explore(cid, tier, replay):
                 break
         menu = max([r.get("counters", {}).get("max_menu_commands", 0) for r in reports] or [0])
         extra = {"states": len(visited), "workers": nw, "rounds": rounds,
-                 "bound": {"depth": depth, "roots": 4, "core_only_prefixes_from_depth": core_from if core_from <= depth else None, "menu_commands": menu, "completed_all_rounds": complete}}
+                 "bound": {"depth": depth, "roots": max([r.get("counters", {}).get("max_roots", 0) for r in reports] or [0]), "core_only_prefixes_from_depth": core_from if core_from <= depth else None, "menu_commands": menu, "completed_all_rounds": complete}}
         for r in reports:
             r.get("counters", {}).pop("states", None)
         if adversary:
@@ -225,12 +239,16 @@ CLAIMED = True
 MANIFEST = dict(
     level="model_checking",
     engine="seqx (explicit-state BFS with state merging on the real FSM)",
-    technique="explicit-state breadth-first model checking of the real ts-meta raft FSM: every command of a 202-entry menu (all 66 "
-              "applyFunc entries, valid/duplicate/unknown/absent arguments) from 4 seeded catalogues to depth 3 (quick) / "
-              "depth 3 plus depth 4 from the states reached by core-alphabet paths (thorough); each transition replayed on fresh stores and compared with a second replica and with snapshot->persist->restore at every cut position",
+    technique="explicit-state breadth-first model checking of the real ts-meta raft FSM: every command of a 203-entry menu (all 66 "
+              "applyFunc entries, valid/duplicate/unknown/absent arguments) from 5 seeded catalogues (one of them with two of everything, so "
+              "that every map a command ranges over has >= 2 entries) to depth 3 (quick) / "
+              "depth 3 plus depth 4 from the states reached by core-alphabet paths (thorough); each transition replayed on fresh stores and "
+              "compared with a second replica and with snapshot->persist->restore at every cut position; map-order adversary: the 131 "
+              "range-over-map statements of the two meta packages are rewritten at check time (go/types, overlay) so that the reference "
+              "visits keys ascending and the second replica / restored nodes descending",
     text="All command sequences up to the depth bound (merged on the canonical catalogue dump) are applied through (*storeFSM).Apply to "
-         "two independent stores and, for every cut position, to a store restored from Snapshot/Persist/Restore; results and complete "
-         "sorted dumps must be equal.",
-    note="Trusts: the canonical dump (what MarshalBinary persists) determines all futures; map iteration order is not adversarial; "
-         "wall-clock deletion stamps compared as set/unset.",
+         "independent stores that range over their maps in opposite key orders and, for every cut position, to a store restored from "
+         "Snapshot/Persist/Restore (also in the opposite order); results and complete sorted dumps must be equal.",
+    note="Trusts: the canonical dump (what MarshalBinary persists) determines all futures; of the n! iteration orders of a map only "
+         "ascending, descending and one runtime-chosen order are exercised; wall-clock deletion stamps compared as set/unset.",
 )
